@@ -604,6 +604,16 @@ func c09CorpusCases() []c09Corpus {
 		{"fixed6.dup_batch.add_plain_twice_among_others", cat([]c09Op{cAdd(1, 3600, 2), {code: 1, p: 1, ttl: 900, addrs: [][2]int64{{1, 0}, {2, 0}, {3, 1}, {1, 0}, {3, 0}}}, cAddrs(1), cGC()}, obsAll(1), []c09Op{cAdv(900), cGC()}, obsAll(1))},
 		{"fixed6.dup_batch.set_twice", cat([]c09Op{{code: 2, p: 1, ttl: 120, addrs: [][2]int64{{1, 1}, {1, 0}, {1, 1}}}, cAddrs(1), cGC(), cSet(1, 0, 1, 1), cAddrs(1), cGC()}, obsAll(1))},
 		{"fixed6.dup_batch.consume_twice", cat([]c09Op{cConRaw(1, 1, 900, [2]int64{3, 1}, [2]int64{3, 0}, [2]int64{2, 0}, [2]int64{2, 0}), cAddrs(1), cGC()}, obsAll(1), []c09Op{cConRaw(1, 2, 0, [2]int64{4, 0}, [2]int64{4, 0})}, obsAll(1), []c09Op{cGC()}, obsAll(1))},
+		// deadline-directed (adversary round 2): a re-add with a SMALLER class late in the life of a
+		// larger one must move the deadline to now+small (m5); UpdateAddrs(ttl, ttl) is a refresh to
+		// now+ttl (m8); reads between the old and the new deadline, also after close/reopen
+		{"deadline.readd_smaller_outlives.add", cat([]c09Op{cAdd(1, 900, 1), cAdv(840), cAdd(1, 120, 1), cAdv(59)}, obsAll(1), []c09Op{cAdv(1)}, obsAll(1), []c09Op{cAdv(30), cReopen()}, obsAll(1), []c09Op{cGC(), cPeers(), cAdv(29)}, obsAll(1), []c09Op{cAdv(1)}, obsAll(1), []c09Op{cGC()}, obsAll(1))},
+		{"deadline.readd_smaller_outlives.consume", cat([]c09Op{cCon(1, 1, 3600, 1, 2), cAdv(3590), cCon(1, 1, 120, 1), cAdv(10)}, obsAll(1), []c09Op{cAdv(50), cGC(), cReopen()}, obsAll(1), []c09Op{cAdv(60)}, obsAll(1), []c09Op{cGC()}, obsAll(1))},
+		{"deadline.readd_smaller_does_not_outlive", cat([]c09Op{cAdd(1, 900, 1), cAdv(100), cAdd(1, 120, 1), cAdv(120)}, obsAll(1), []c09Op{cAdv(679)}, obsAll(1), []c09Op{cAdv(1)}, obsAll(1), []c09Op{cGC()}, obsAll(1))},
+		{"deadline.set_smaller_late_and_early", cat([]c09Op{cAdd(1, 900, 1, 2), cAdv(840), cSet(1, 120, 1), cAdv(60)}, obsAll(1), []c09Op{cAdv(59)}, obsAll(1), []c09Op{cAdv(1), cReopen()}, obsAll(1), []c09Op{cAdd(2, 3600, 3), cAdv(10), cSet(2, 120, 3), cAdv(119)}, obsAll(2), []c09Op{cAdv(1)}, obsAll(2), []c09Op{cGC()}, obsAll(1, 2))},
+		{"deadline.update_same_class_refreshes", cat([]c09Op{cAdd(1, 120, 1), cAdd(1, 900, 2), cAdv(60), cUpd(1, 120, 120), cAdv(60)}, obsAll(1), []c09Op{cAdv(30), cReopen()}, obsAll(1), []c09Op{cGC(), cPeers(), cAdv(29)}, obsAll(1), []c09Op{cAdv(1)}, obsAll(1), []c09Op{cGC()}, obsAll(1))},
+		{"deadline.update_same_class_connected_and_record", cat([]c09Op{cCon(1, 1, 900, 1), cAdd(1, C, 2), cAdv(800), cUpd(1, C, C), cUpd(1, 900, 900), cAdv(100)}, obsAll(1), []c09Op{cAdv(799), cReopen()}, obsAll(1), []c09Op{cAdv(1)}, obsAll(1), []c09Op{cGC()}, obsAll(1))},
+		{"deadline.update_to_other_class_between", cat([]c09Op{cAdd(1, 900, 1), cAdv(500), cUpd(1, 900, 120), cAdv(119)}, obsAll(1), []c09Op{cAdv(1)}, obsAll(1), []c09Op{cAdd(1, 120, 1), cAdv(60), cUpd(1, 120, 900), cAdv(60)}, obsAll(1), []c09Op{cAdv(839), cReopen()}, obsAll(1), []c09Op{cAdv(1), cGC()}, obsAll(1))},
 		// exactly-at-expiry, TTL class moves, permanent
 		{"ok.exactly_at_expiry", cat([]c09Op{cAdd(1, 120, 1), cAdd(2, 900, 1, 2), cAdv(119)}, obsAll(1, 2), []c09Op{cAdv(1)}, obsAll(1, 2), []c09Op{cGC()}, obsAll(1, 2), []c09Op{cAdv(779)}, obsAll(2), []c09Op{cAdv(1), cGC()}, obsAll(2))},
 		{"ok.add_never_shortens", cat([]c09Op{cAdd(1, 3600, 1), cAdd(1, 120, 1), cAdv(121)}, obsAll(1), []c09Op{cSet(1, 120, 1), cAdv(120), cGC()}, obsAll(1))},
@@ -905,6 +915,263 @@ func c09CoverExpiry(out *verifh.Out, ops []c09Op) {
 	}
 }
 
+
+// ---- deadline-directed generator ------------------------------------------------
+// Operations and clock advances are placed RELATIVE TO THE DEADLINES the history has assigned so
+// far: a shadow book (used only to steer the generator, never to judge) remembers, per (peer,
+// address), the current class and deadline, and every deadline ever assigned (superseded ones
+// included).  The walker then moves the clock to just before / exactly on / just after those
+// instants and reads there, so that "which of two candidate deadlines did the book keep?" is observed.
+
+type c09ShadowEnt struct{ ttl, exp int64 }
+type c09ShadowKey struct{ p, a int64 }
+
+type c09Directed struct {
+	r      *verifh.Rand
+	nP, nA int64
+	now    int64
+	ents   map[c09ShadowKey]*c09ShadowEnt
+	cand   []int64 // every finite deadline ever assigned (absolute seconds)
+	seq    map[int64]int64
+	ops    []c09Op
+	out    *verifh.Out
+}
+
+var c09Finite = []int64{10, 120, 900, 1800, 3600}
+
+func (g *c09Directed) emit(o c09Op) { g.ops = append(g.ops, o) }
+
+func (g *c09Directed) assign(p, a, ttl int64, extend bool) {
+	if ttl <= 0 {
+		return
+	}
+	k := c09ShadowKey{p, a}
+	exp := g.now + ttl
+	if ttl >= c09TTLConn {
+		exp = 1 << 50
+	} else {
+		g.cand = append(g.cand, exp)
+	}
+	e, ok := g.ents[k]
+	if !ok || e.exp <= g.now {
+		g.ents[k] = &c09ShadowEnt{ttl, exp}
+		return
+	}
+	if extend {
+		if ttl > e.ttl {
+			e.ttl = ttl
+		}
+		if exp > e.exp {
+			e.exp = exp
+		}
+	} else {
+		e.ttl, e.exp = ttl, exp
+	}
+}
+
+func (g *c09Directed) advance(d int64) {
+	if d < 0 {
+		d = 0
+	}
+	g.now += d
+	g.emit(cAdv(d))
+}
+
+func (g *c09Directed) reads(p int64) {
+	g.emit(cAddrs(p))
+	switch g.r.Intn(6) {
+	case 0:
+		g.emit(cPeers())
+	case 1:
+		g.emit(cRec(p))
+	case 2:
+		g.emit(cGC())
+		g.emit(cPeers())
+	case 3:
+		g.emit(cReopen())
+		g.emit(cAddrs(p))
+	}
+}
+
+// a live finite entry of the shadow, if any
+func (g *c09Directed) pick() (c09ShadowKey, *c09ShadowEnt, bool) {
+	var ks []c09ShadowKey
+	for k, e := range g.ents {
+		if e.exp > g.now && e.ttl < c09TTLConn {
+			ks = append(ks, k)
+		}
+	}
+	if len(ks) == 0 {
+		return c09ShadowKey{}, nil, false
+	}
+	sort.Slice(ks, func(i, j int) bool { return ks[i].p < ks[j].p || (ks[i].p == ks[j].p && ks[i].a < ks[j].a) })
+	k := ks[g.r.Intn(len(ks))]
+	return k, g.ents[k], true
+}
+
+func (g *c09Directed) write(kind int, p, a, ttl int64) {
+	switch kind {
+	case 0:
+		g.emit(cAdd(p, ttl, a))
+		g.assign(p, a, ttl, true)
+	case 1:
+		g.emit(cSet(p, ttl, a))
+		g.assign(p, a, ttl, false)
+	default:
+		g.seq[p]++
+		g.emit(cCon(p, g.seq[p], ttl, a))
+		g.assign(p, a, ttl, true)
+	}
+}
+
+// move the clock through the next deadlines (old and new ones alike) and read around them
+func (g *c09Directed) walk(p int64, stops int) {
+	for i := 0; i < stops; i++ {
+		next := int64(-1)
+		for _, c := range g.cand {
+			if c > g.now && (next < 0 || c < next) {
+				next = c
+			}
+		}
+		if next < 0 {
+			return
+		}
+		switch g.r.Intn(4) {
+		case 0: // one second before the deadline, then onto it
+			g.advance(next - 1 - g.now)
+			g.reads(p)
+			g.advance(next - g.now)
+			g.out.Cover("directed.read_exactly_on_a_deadline")
+		case 1: // exactly on it
+			g.advance(next - g.now)
+			g.out.Cover("directed.read_exactly_on_a_deadline")
+		case 2: // between this deadline and the one after it
+			after := int64(-1)
+			for _, c := range g.cand {
+				if c > next && (after < 0 || c < after) {
+					after = c
+				}
+			}
+			if after > next+1 {
+				g.advance(next + 1 + int64(g.r.Intn(int(after-next-1))) - g.now)
+				g.out.Cover("directed.read_between_two_deadlines")
+			} else {
+				g.advance(next + 1 - g.now)
+			}
+		default:
+			g.advance(next + 1 - g.now)
+		}
+		g.reads(p)
+	}
+}
+
+func (g *c09Directed) history(phases int) []c09Op {
+	for ph := 0; ph < phases; ph++ {
+		k, e, ok := g.pick()
+		if !ok || g.r.Chance(1, 4) {
+			// seed an entry (or a small batch) in some finite class, sometimes connected
+			p := 1 + int64(g.r.Intn(int(g.nP)))
+			a := 1 + int64(g.r.Intn(int(g.nA)))
+			t := c09Finite[1+g.r.Intn(len(c09Finite)-1)]
+			if g.r.Chance(1, 8) {
+				t = c09TTLConn
+			}
+			g.write(g.r.Intn(3), p, a, t)
+			if g.r.Chance(1, 3) {
+				b := 1 + a%g.nA
+				g.write(0, p, b, c09Finite[g.r.Intn(len(c09Finite))])
+			}
+			g.reads(p)
+			continue
+		}
+		left := e.exp - g.now
+		switch g.r.Intn(7) {
+		case 0, 1: // re-add with a SMALLER class, late enough that now+small outlives the old deadline
+			var smaller []int64
+			for _, t := range c09Finite {
+				if t < e.ttl {
+					smaller = append(smaller, t)
+				}
+			}
+			if len(smaller) == 0 {
+				g.write(0, k.p, k.a, e.ttl)
+				g.out.Cover("directed.readd_same_class")
+				break
+			}
+			t := smaller[g.r.Intn(len(smaller))]
+			if left > t-1 && t > 1 {
+				g.advance(left - 1 - int64(g.r.Intn(int(t-1)))) // now the entry has 1..t-1 seconds left
+			}
+			g.write([]int{0, 0, 2}[g.r.Intn(3)], k.p, k.a, t)
+			g.out.Cover("directed.readd_smaller_class_outlives_old_deadline")
+		case 2: // re-add with a smaller class early: must NOT move the deadline
+			t := c09Finite[g.r.Intn(len(c09Finite))]
+			g.write([]int{0, 2}[g.r.Intn(2)], k.p, k.a, t)
+			if t < e.ttl && g.now+t < e.exp {
+				g.out.Cover("directed.readd_smaller_class_does_not_outlive")
+			}
+		case 3: // UpdateAddrs(old == new): a refresh
+			if left > 1 {
+				g.advance(1 + int64(g.r.Intn(int(left-1))))
+			}
+			g.emit(cUpd(k.p, e.ttl, e.ttl))
+			for kk, ee := range g.ents {
+				if kk.p == k.p && ee.ttl == e.ttl && ee.exp > g.now {
+					ee.exp = g.now + e.ttl
+					g.cand = append(g.cand, ee.exp)
+				}
+			}
+			g.out.Cover("directed.update_same_class")
+		case 4: // UpdateAddrs to another finite class somewhere in the entry's life
+			if left > 1 {
+				g.advance(int64(g.r.Intn(int(left))))
+			}
+			t := c09Finite[g.r.Intn(len(c09Finite))]
+			old := e.ttl
+			g.emit(cUpd(k.p, old, t))
+			for kk, ee := range g.ents {
+				if kk.p == k.p && ee.ttl == old && ee.exp > g.now {
+					ee.ttl, ee.exp = t, g.now+t
+					g.cand = append(g.cand, ee.exp)
+				}
+			}
+			g.out.Cover("directed.update_other_class")
+		case 5: // SetAddrs late in the life: the deadline moves to now+ttl, earlier or later
+			if left > 1 {
+				g.advance(int64(g.r.Intn(int(left))))
+			}
+			g.write(1, k.p, k.a, c09Finite[g.r.Intn(len(c09Finite))])
+			g.out.Cover("directed.set_late")
+		default: // connected and back
+			g.emit(cUpd(k.p, e.ttl, c09TTLConn))
+			for kk, ee := range g.ents {
+				if kk.p == k.p && ee.ttl == e.ttl && ee.exp > g.now {
+					ee.ttl, ee.exp = c09TTLConn, 1<<50
+				}
+			}
+			g.advance(int64(g.r.Intn(2000)))
+			t := c09Finite[g.r.Intn(len(c09Finite))]
+			g.emit(cUpd(k.p, c09TTLConn, t))
+			for kk, ee := range g.ents {
+				if kk.p == k.p && ee.ttl == c09TTLConn {
+					ee.ttl, ee.exp = t, g.now+t
+					g.cand = append(g.cand, ee.exp)
+				}
+			}
+			g.out.Cover("directed.connected_and_back")
+		}
+		g.walk(k.p, 1+g.r.Intn(3))
+	}
+	for p := int64(1); p <= g.nP; p++ {
+		g.emit(cAddrs(p))
+		g.emit(cRec(p))
+	}
+	g.emit(cPeers())
+	g.emit(cGC())
+	g.emit(cPeers())
+	return g.ops
+}
+
 func TestVerifC09(t *testing.T) {
 	out, err := verifh.Open()
 	if err != nil {
@@ -979,6 +1246,37 @@ func TestVerifC09(t *testing.T) {
 						out.Cover("memds.different_answers")
 					}
 				}
+			}
+		}
+	}
+
+	// 2b. deadline-directed histories (see c09Directed): every one runs on the in-memory book and on
+	// datastore-backed books with the cache off and on (full-purge and lookahead GC alternating)
+	nDir := 700
+	if thorough {
+		nDir = 4000
+	}
+	for h := 0; h < nDir; h++ {
+		g := &c09Directed{r: r.Fork(), nP: 1 + int64(r.Intn(2)), nA: 2 + int64(r.Intn(3)), ents: map[c09ShadowKey]*c09ShadowEnt{}, seq: map[int64]int64{}, out: out}
+		ops := g.history(3 + g.r.Intn(6))
+		c09CoverExpiry(out, ops)
+		out.Cover("histories.directed")
+		look := int64(0)
+		if h%3 == 2 {
+			look = []int64{1, 30, 4000}[g.r.Intn(3)]
+		}
+		var memLine []int64
+		for _, cfg := range []c09Cfg{{store: 0}, {store: 1, cache: 0, look: look}, {store: 1, cache: 1, look: look}} {
+			cfg.nP, cfg.nA = g.nP, g.nA
+			line := c09RunCase(u, cfg, ops, out)
+			c09Cover(out, cfg, ops, line)
+			out.Case(line)
+			if cfg.store == 0 {
+				memLine = line
+			} else if c09SameAnswers(memLine, line) {
+				out.Cover("memds.directed.same_answers")
+			} else {
+				out.Cover("memds.directed.different_answers")
 			}
 		}
 	}
